@@ -418,6 +418,23 @@ def r3_strings(ck, prog, run):
            (not bad2) if not unk2 else (False if bad2 else None), found=str(bad2[:4]) if bad2 else None, nontrivial=True,
            note=f"{len(bad2)} of {n2} wrong" + (f"; not evaluable: {unk2[:2]}" if unk2 else ""))
     run.floor("R3", "decimal spellings evaluated in IEEE doubles", n2, 15)
+    # what is NOT a plain decimal string is refused (ValueError), never parsed into some number: a second sign, inner blanks, inf/nan,
+    # two points, a dangling or doubled exponent, other text
+    bad3, unk3, n3 = [], [], 0
+    for s_ in ["--1", "+-1", "-+1", "- 1", "++3", "+-2e3", "--1.5", "inf", "-inf", "infinity", "nan", "1.2.3", "1..2", "1e", "e5", "1e2e3", "abc", "0x10", "1,5", "1 2"]:
+        n3 += 1
+        ev = phase_evaluator(prog, PhaseLog())
+        try:
+            r = ev.call(fps, [StrV(s_)], {})
+            bad3.append((s_, f"parsed as {str(r)[:60]}"))
+        except Raised as e:
+            if e.exc_name != "ValueError":
+                bad3.append((s_, f"raises {e.exc_name}"))
+        except (Unsupported, DimensionError) as e:
+            unk3.append((s_, str(e)[:100]))
+    run.ob("R3", fps.where, f"_parse_string over {n3} strings that are not plain decimals", "refused with ValueError (float() of the pieces is what rejects them), never turned into a number",
+           (not bad3) if not unk3 else (False if bad3 else None), found=str(bad3[:4]) if bad3 else None, nontrivial=True,
+           note=f"{len(bad3)} of {n3} wrong" + (f"; not evaluable: {unk3[:2]}" if unk3 else ""))
     # sibling idiom: a string without a decimal point keeps all digits in the integer part at both splitting sites
     for fi, var in ((fps, "s_float"), (prog.func("PhasePredictor.from_polyco"), "rphase")):
         calls = [c_ for c_ in ast.walk(fi.node) if isinstance(c_, ast.Call) and isinstance(c_.func, ast.Attribute) and c_.func.attr in ("partition", "rpartition", "split")
